@@ -177,6 +177,7 @@ class Check:
         discharged = [(u, o) for u, o in obs if o["status"] == "discharged"]
         names = sorted({f"{u}::{o['name']}" for u, o in obs})
         violations = 0
+        aux_undecided: list[tuple[str, dict, str]] = []
         known_hits: list[str] = []
         known_ob = 0
         os.makedirs(os.path.join(OUT, "replay", self.prop), exist_ok=True)
@@ -226,6 +227,12 @@ class Check:
                     except Exception:
                         msg += "\nreplay of searched witness crashed"
             path = self.write_replay(u, o, model, msg, reproduced)
+            if not reproduced and re.search(r"/loop\d+/", o["name"]):
+                # an auxiliary loop invariant / variant that is no longer re-established means
+                # the *proof* broke (e.g. the loop was restructured); without a failing input on
+                # the real code the property is undecided, not violated
+                aux_undecided.append((u, o, path))
+                continue
             violations += 1
             tail = "" if reproduced else " no-failing-input-found"
             lines.append(f"VIOLATION property={self.prop} replay={path}{tail}")
@@ -265,6 +272,12 @@ class Check:
             rc = 2
             for u, o in und_real[:10]:
                 lines.append(f"UNDECIDED property={self.prop} {u}::{o['name']}")
+        if aux_undecided and rc == 0:
+            rc = 2
+        for u, o, path in aux_undecided[:10]:
+            lines.append(f"UNDECIDED property={self.prop} {u}::{o['name']} (loop invariant not "
+                         f"re-established, no failing input found on the real code: the proof "
+                         f"broke, the property is not decided; see {path})")
         if violations:
             rc = 1
         self.write_evidence(results, n_ob, len(discharged), known_ob, len(und_real), violations,
